@@ -140,8 +140,9 @@ class OptimizeAnalysis:
         callee = k[1][0]
         evs = self.an.effects(callee)
         stores_chi2 = any(e.kind == "AttrStore" and path_str(e.path) == "self._chi2" for e in evs)
+        from .effects import is_numjac_perturbation
         stores_pose = any(e.kind in ("AttrStore", "ElemStore", "MutCall", "AugName") and ".pose" in e.path[1:] and
-                          not (e.fn.name == "_calc_jacobian" and getattr(e.fn, "_gs_class", None) == "BaseEdge") for e in evs)
+                          not is_numjac_perturbation(self.pkg, e) for e in evs)
         written, exposed = self_reads_writes(self.pkg, callee)
         return callee, stores_chi2, stores_pose, written, exposed
 
